@@ -23,6 +23,17 @@ class Perm(enum.Flag):
     R = 4
     W = 2
     X = 1
+    RW = 6          # a named combination
+
+
+class Shade(enum.Enum):
+    DARK = 1
+    DIM = 1         # an alias
+
+
+class IPerm(enum.IntFlag):
+    R = 4
+    W = 2
 
 
 Point = collections.namedtuple('Point', ['x', 'y'])
@@ -38,7 +49,7 @@ class Typed(typing.NamedTuple):
 
 
 NAMEDTUPLES = {'Point': Point, 'Empty': Empty, 'Renamed': Renamed, 'Single': Single, 'Typed': Typed}
-ENUMS = {'Color': Color, 'Perm': Perm}
+ENUMS = {'Color': Color, 'Perm': Perm, 'Shade': Shade, 'IPerm': IPerm}
 
 
 def user_function(*args, **kwargs):
@@ -112,6 +123,8 @@ def build_std(r, build):
     if k == 'uuid':
         return uuid.UUID(hex=r[2])
     if k == 'enum':
+        if isinstance(r[3], int):
+            return ENUMS[r[2]](r[3])        # a Flag value by number: a member, a combination of members or none
         return ENUMS[r[2]][r[3]]
     if k == 'ns':
         return types.SimpleNamespace(**{n: build(v) for n, v in r[2]})
@@ -268,7 +281,9 @@ def std_strategy(S, payload=None, hashable=None):
     r_chain = st.lists(pairs, max_size=3).map(lambda ms: ['std', 'chainmap', ms])
     r_mproxy = pairs.map(lambda kv: ['std', 'mproxy', kv])
     r_uuid = st.one_of(st.sampled_from(['0' * 32, 'f' * 32]), st.uuids().map(lambda u: u.hex)).map(lambda h: ['std', 'uuid', h])
-    r_enum = st.sampled_from([['Color', 'RED'], ['Color', 'GREEN'], ['Color', 'BLUE'], ['Perm', 'R'], ['Perm', 'W'], ['Perm', 'X']]).map(
+    r_enum = st.sampled_from([['Color', 'RED'], ['Color', 'GREEN'], ['Color', 'BLUE'], ['Perm', 'R'], ['Perm', 'W'], ['Perm', 'X'],
+                              ['Perm', 'RW'], ['Shade', 'DIM'], ['Shade', 'DARK'], ['IPerm', 'R']] +
+                             [['Perm', n] for n in range(8)] + [['IPerm', n] for n in (0, 2, 6, 8, 14)]).map(
         lambda p: ['std', 'enum', p[0], p[1]])
     ident = st.sampled_from(['a', 'b', 'zz', '_x', 'é', 'name', 'value', 'ctx', 'fn', 'self'])
     r_ns = st.lists(st.tuples(ident, payload).map(list), max_size=4, unique_by=lambda p: p[0]).map(lambda kv: ['std', 'ns', kv])
